@@ -10,6 +10,7 @@ import (
 	"sort"
 	"strconv"
 	"strings"
+	"sync"
 	"sync/atomic"
 	"time"
 )
@@ -150,26 +151,41 @@ func cmdCheck(w *World, args []string, tier string, verbose bool) int {
 
 	// vacuity guard: every function's precondition (and entry state) must be satisfiable
 	vacuity := 0
-	for _, r := range results {
-		if r.err != nil || len(r.obls) == 0 {
-			continue
+	{
+		type vq struct {
+			name, query, what string
 		}
-		o := r.obls[0]
-		body := strings.Join(o.fx.lines[:o.prefix], "\n") + "\n"
-		q := o.fx.W.preludeFor(body) + body
-		a := runQuery(q, 5, false)
-		vacuity++
-		if a.Verdict == VUnsat {
-			problems = append(problems, fmt.Sprintf("vacuity/%s: precondition and assumptions are contradictory", r.name))
-			continue
+		var qs []vq
+		for _, r := range results {
+			if r.err != nil || len(r.obls) == 0 {
+				continue
+			}
+			o := r.obls[0]
+			body := strings.Join(o.fx.lines[:o.prefix], "\n") + "\n"
+			qs = append(qs, vq{r.name, o.fx.W.preludeFor(body) + body, "precondition and assumptions are contradictory"})
+			// all assumptions made anywhere in the function (callee postconditions, invariants, model
+			// facts) must be jointly satisfiable, otherwise later obligations are discharged vacuously
+			bodyAll := strings.Join(o.fx.lines, "\n") + "\n"
+			qs = append(qs, vq{r.name, o.fx.W.preludeFor(bodyAll) + bodyAll, "the assumptions collected while executing the function are contradictory"})
 		}
-		// all assumptions made anywhere in the function (callee postconditions, invariants, model
-		// facts) must be jointly satisfiable, otherwise later obligations are discharged vacuously
-		bodyAll := strings.Join(o.fx.lines, "\n") + "\n"
-		a2 := runQuery(o.fx.W.preludeFor(bodyAll)+bodyAll, 5, false)
-		vacuity++
-		if a2.Verdict == VUnsat {
-			problems = append(problems, fmt.Sprintf("vacuity/%s: the assumptions collected while executing the function are contradictory", r.name))
+		vacuity = len(qs)
+		verdicts := make([]Verdict, len(qs))
+		var wg sync.WaitGroup
+		sem := make(chan struct{}, 8)
+		for i := range qs {
+			wg.Add(1)
+			sem <- struct{}{}
+			go func(i int) {
+				defer wg.Done()
+				defer func() { <-sem }()
+				verdicts[i] = runQuery(qs[i].query, 5, false).Verdict
+			}(i)
+		}
+		wg.Wait()
+		for i, q := range qs {
+			if verdicts[i] == VUnsat {
+				problems = append(problems, fmt.Sprintf("vacuity/%s: %s", q.name, q.what))
+			}
 		}
 	}
 
